@@ -88,3 +88,32 @@ Proof.
   specialize (Hnm n). unfold names_of in Hnm.
   split; intro X; apply tags_names; apply tags_names in X; congruence.
 Qed.
+
+(* The decision of a Push (stored / already-exists / mismatch / duplicate-name ...) is taken in one
+   atomic step that reads the content map: at every reachable configuration it is the decision
+   the sequential execution of the commit log takes.  (Memory store: LoadOrStore; file store:
+   the name's lock section or the fallback LoadOrStore.  For the OCI store the statement is
+   false -- stat and rename are two steps: C06_repush_refused_oci_racing_refuted.) *)
+Theorem push_decision_linearisable_memory (progs : list (list op)) (sched : list nat) :
+  let cf := mconf_run (mconf_init progs) sched in
+  let q := fst (run mem_step mem_init (map snd (c_log cf))) in
+  forall d c, snd (mem_step (c_store cf) (Push d c)) = snd (mem_step q (Push d c)).
+Proof.
+  intros cf q. pose proof (cinv_run progs sched _ (cinv_init progs)) as Hinv. fold cf in Hinv.
+  destruct Hinv as [_ _ Hcas _ _ _ _ _]. fold (seq_state (map snd (c_log cf))) in q.
+  intros d c. subst q. cbn [mem_step]. rewrite Hcas.
+  destruct (get gkey_eqb (gk d) (m_cas (seq_state (map snd (c_log cf))))); [reflexivity|].
+  destruct (verify d c); reflexivity.
+Qed.
+
+Theorem push_decision_linearisable_file (fx ig ov : bool) (progs : list (list op)) (sched : list nat) :
+  Forall untitled (concat progs) ->
+  let cf := fconf_run fx ig ov (fconf_init progs) sched in
+  let q := fst (runf (file_step fx ig ov) file_init (map snd (fc_log cf))) in
+  forall d c, snd (file_push_store fx ig ov (fc_store cf) d c) = snd (file_push_store fx ig ov q d c).
+Proof.
+  intros Hun cf q. pose proof (finv_run fx ig ov progs sched Hun _ (finv_init fx ig ov progs)) as Hinv.
+  fold cf in Hinv. destruct Hinv as [_ _ Hcore _ _]. fold (seq_fstate fx ig ov (map snd (fc_log cf))) in q.
+  intros d c. subst q. rewrite (fcore_eq_graph _ _ Hcore).
+  set (g := f_graph (fc_store cf)). clearbody g. rewrite file_push_store_graph. reflexivity.
+Qed.
